@@ -8,12 +8,20 @@ import (
 
 // FloatValueApprox compares floating point values as equal if they are within
 // fraction or margin of each other.
+// Identical values are always equal, including NaN (as with proto.Equal) and the infinities;
+// an infinity is not within any tolerance of a different value.
 func FloatValueApprox(fraction, margin float64) Value {
 	return func(fd pref.FieldDescriptor, x, y pref.Value) (equal bool, ok bool) {
 		if fd.Kind() != pref.FloatKind && fd.Kind() != pref.DoubleKind {
 			return false, false
 		}
 		fx, fy := x.Float(), y.Float()
+		if fx == fy || (math.IsNaN(fx) && math.IsNaN(fy)) {
+			return true, true
+		}
+		if math.IsInf(fx, 0) || math.IsInf(fy, 0) {
+			return false, true
+		}
 		relMarg := fraction * math.Min(math.Abs(fx), math.Abs(fy))
 		return math.Abs(fx-fy) <= math.Max(margin, relMarg), true
 	}
